@@ -113,3 +113,36 @@ func ZZ_C05_anycode() {
 		nd.Assert(err != nil, "program_of_unrecognised_shape_is_rejected")
 	}
 }
+
+// ZZ_C05_pair: every program of a transaction is checked, not only the first.
+// RunPrograms on two (hash, program) pairs: a cross-chain (0x4B) address with
+// a 1-of-2 cross-chain script correctly signed by its first key, and a
+// standard address of another owner whose program carries a right signature,
+// a signature over other data, a signature by another key or forged bytes —
+// in either order. Accepted only if the standard program carries its owner's
+// signature over the data.
+func ZZ_C05_pair() {
+	data := nd.Bytes("unsignedTx", 6)
+	other := nd.Bytes("otherData", 6)
+	nd.Assume(string(other) != string(data))
+	// the cross-chain pair (its code is not tied to the address: see C33)
+	cc := zzMultiCode(1, []int{2, 0})
+	cc[len(cc)-1] = common.CROSSCHAIN
+	ccProgram := &Program{Code: cc, Parameter: append([]byte{64}, zzSign(2, data)...)}
+	ccHash := common.Uint168{0x4B, 0x01}
+	// the standard pair
+	code := zzStandardCode(1)
+	sig, signer, good := zzSlot(data, other)
+	stProgram := &Program{Code: code, Parameter: append([]byte{64}, sig...)}
+	stHash := *common.ToProgramHash(0x21, code)
+	hashes, programs := []common.Uint168{ccHash, stHash}, []*Program{ccProgram, stProgram}
+	if nd.Bool("standardFirst") {
+		hashes, programs = []common.Uint168{stHash, ccHash}, []*Program{stProgram, ccProgram}
+	}
+	err := RunPrograms(data, hashes, programs)
+	nd.Reach("decided")
+	if err == nil {
+		nd.Reach("accepted")
+		nd.Assert(good && signer == 1, "every_program_of_the_transaction_is_verified")
+	}
+}
